@@ -295,6 +295,12 @@ class SpanQuery(Query):
     def needs_spans(self):
         return True
 
+    def estimate_size(self, ixreader):
+        return self.q.estimate_size(ixreader)
+
+    def estimate_min_size(self, ixreader):
+        return self.q.estimate_min_size(ixreader)
+
 
 class WrappingSpan(SpanQuery):
     def is_leaf(self):
